@@ -1196,6 +1196,15 @@ class Evaluator:
                 pass
             elif z3.is_int_value(lim.z) and lim.z.as_long() == 1:
                 res = self.limit_one(res, rel_for_keys, s["order"], outer)
+            elif not z3.is_int_value(lim.z) and s["order"]:
+                # symbolic LIMIT n with ORDER BY: a row is kept iff fewer than n present rows sort strictly before it
+                # (ties: the order keys used with a symbolic limit are unique keys in the store's statements)
+                ok = [self.order_key(s["order"], rel_for_keys, rel_for_keys.rows[i], outer) for i in range(n)]
+                kept = []
+                for i in range(n):
+                    rank = z3.Sum([z3.If(z3.And(res.rows[j].guard, self.before(ok[j], ok[i])), 1, 0) for j in range(n) if j != i]) if n > 1 else z3.IntVal(0)
+                    kept.append(Row(z3.And(res.rows[i].guard, rank < lim.z), res.rows[i].vals))
+                res = Rel(res.cols, kept)
             elif z3.is_int_value(lim.z):
                 # more row slots than the limit (joins multiply slots): the evaluation is restricted to contents whose
                 # result fits the page; recorded as an assumption of the obligation
